@@ -381,7 +381,11 @@ def check_script_cases(ctx, W, cases, tag):
         if mo.startswith('EXN') or mo == 'BADCMD':
             ctx.broken_obligation('cost model driver failed on a case', mo + ' :: ' + line[:300])
             continue
-        if pv(mo) != obs and ok:
+        mobs = pv(mo)
+        if case['gen_len'] == 0 and mobs[0] == 'err' and obs[0] == 'err':
+            # a generator returning no start breaks its contract; which exception sorted([])[0] / min([]) raises is not specified
+            mobs = obs
+        if mobs != obs and ok:
             ctx.violation(dict(call='Circuit.instantiate', kind='model-mismatch', world='scripted'),
                           dict(kind='script', case=case), mo, fmt(obs),
                           'Coq model of instantiate/multi_start and the implementation disagree',
@@ -945,10 +949,10 @@ def mk_target(np, kind, tspec, radixes, circuit):
     return S, (Vn, Wn)
 
 
-def gen_cost_case(rng, idx):
+def gen_cost_case(rng, idx, deep=False):
     mono = rng.random() < 0.2
     want = rng.choice([None, ('py',), ('dagger', 'power', 'tagged', 'frozen', 'ctrl', 'embedded', 'circuit')])
-    cs = gen_circuit_spec(rng, mono=mono, want=want)
+    cs = gen_circuit_spec(rng, mono=mono, want=want, max_dim=27 if deep else 18, nops=rng.randint(1, 10) if deep else None)
     npar = sum(len(o[2]) for o in cs['ops'] if o[2])
     kind = rng.choice(['unitary', 'unitary', 'state', 'system'])
     N = math.prod(cs['radixes'])
@@ -1527,15 +1531,23 @@ def known_match(sig):
 
 def label(case, problems):
     """final signatures: add the gate a gradient/value problem is attributed to"""
-    culprit = None          # only a natively evaluated library gate identified by substitution is named in the signature
-    if case.get('kind') == 'cost' and any(p[0].get('symptom') in GRAD_SYMPTOMS + VALUE_SYMPTOMS for p in problems):
-        culprit = native_culprit(case, {canon_sig(p[0]) for p in problems})
+    culprits = {}          # per family: the natively evaluated library gate identified by substitution, if any
+    if case.get('kind') == 'cost':
+        for fam, syms in (('gradient', GRAD_SYMPTOMS), ('value', VALUE_SYMPTOMS)):
+            sigs = {canon_sig(p[0]) for p in problems if p[0].get('symptom') in syms}
+            if sigs:
+                culprits[fam] = native_culprit(case, sigs)
     out = []
     for sig, exp, obs, what in problems:
         sig = dict(sig)
-        if culprit and sig.get('symptom') in GRAD_SYMPTOMS + VALUE_SYMPTOMS:
-            sig['family'] = 'gradient' if sig['symptom'] in GRAD_SYMPTOMS else 'value'
-            sig['gate'] = culprit
+        fam = 'gradient' if sig.get('symptom') in GRAD_SYMPTOMS else 'value' if sig.get('symptom') in VALUE_SYMPTOMS else None
+        culprit = culprits.get(fam)
+        if culprit:
+            named = dict(sig, family=fam, gate=culprit)
+            if known_match(named):          # keep the set of distinct signatures small: name the gate only for a known finding
+                sig = named
+            else:
+                what = what + ' [vanishes when %s is evaluated through its python definition]' % culprit
         out.append((sig, exp, obs, what))
     return out
 
@@ -1545,11 +1557,12 @@ def postprocess(case, out, do_shrink=True):
     if not out['problems']:
         return case, out
     labelled = label(case, out['problems'])
-    if do_shrink and case.get('kind') in ('cost', 'inst') and not all(known_match(p[0]) for p in labelled):
-        small = shrink(case, {canon_sig(p[0]) for p in out['problems']})
+    unknown = {canon_sig(raw[0]) for raw, lab in zip(out['problems'], labelled) if not known_match(lab[0])}
+    if do_shrink and unknown and case.get('kind') in ('cost', 'inst'):
+        small = shrink(case, unknown)            # shrink w.r.t. the problems that are not known findings
         if small is not case:
             out2 = RUNNERS[case['kind']](small)
-            if out2['problems']:
+            if any(canon_sig(p[0]) in unknown for p in out2['problems']):
                 out2['counts'] = out['counts']
                 return small, dict(out2, problems=label(small, out2['problems']))
     return case, dict(out, problems=labelled)
@@ -1572,21 +1585,25 @@ def run_tasks(ctx, tasks):
     import multiprocessing as mp
     nproc = max(2, min(12, (os.cpu_count() or 4) - 2))
     results, pending = [], list(tasks)
-    try:
-        with ProcessPoolExecutor(max_workers=nproc, mp_context=mp.get_context('fork')) as ex:
-            for r in ex.map(work, pending, chunksize=1):
-                results.append(r)
-        pending = []
-    except BrokenProcessPool:
-        pending = pending[len(results):]
-    for t in pending:                       # isolate: one fresh process per remaining task
+    while pending:
+        done = 0
         try:
-            with ProcessPoolExecutor(max_workers=1, mp_context=mp.get_context('fork')) as ex:
-                results.append(ex.submit(work, t).result(timeout=900))
-        except BaseException as e:
-            kind, payload = t
-            ctx.violation(dict(call=kind, symptom='process-abort'), payload if isinstance(payload, dict) else dict(kind=kind, cases=payload),
-                          'a result or a Python exception', 'worker process died: %r' % (e,), 'the implementation killed the interpreter on this case')
+            with ProcessPoolExecutor(max_workers=nproc, mp_context=mp.get_context('fork')) as ex:
+                for r in ex.map(work, pending, chunksize=1):
+                    results.append(r)
+                    done += 1
+            pending = []
+        except BrokenProcessPool:
+            # a worker died (native abort): the culprit is among the tasks in flight; run those one per process
+            window, pending = pending[done:done + 4 * nproc], pending[done + 4 * nproc:]
+            for t in window:
+                try:
+                    with ProcessPoolExecutor(max_workers=1, mp_context=mp.get_context('fork')) as ex:
+                        results.append(ex.submit(work, t).result(timeout=900))
+                except BaseException as e:
+                    kind, payload = t
+                    ctx.violation(dict(call=kind, symptom='process-abort'), payload if isinstance(payload, dict) else dict(kind=kind, cases=payload),
+                                  'a result or a Python exception', 'worker process died: %r' % (e,), 'the implementation killed the interpreter on this case')
     return results
 
 
@@ -1636,15 +1653,15 @@ def run(ctx: vf.Ctx):
     for g in QF_GENERAL:
         tasks.append(('qf-panic', dict(kind='qf-panic', gate=g)))
     tasks += [('cost', c) for c in sweep_cases()]
-    n = ctx.n(320, 4000)
+    n = ctx.n(320, 20000)
     scripts = [gen_script_case(rng, malformed=(rng.random() < 0.15)) for _ in range(n)]
-    mins = [gen_min_case(rng) for _ in range(ctx.n(100, 1500))]
+    mins = [gen_min_case(rng) for _ in range(ctx.n(100, 6000))]
     for i in range(0, len(scripts), 40):
         tasks.append(('script', scripts[i:i + 40]))
     for i in range(0, len(mins), 50):
         tasks.append(('min', mins[i:i + 50]))
-    tasks += [('inst', gen_inst_case(rng, i)) for i in range(ctx.n(160, 3000))]
-    tasks += [('cost', gen_cost_case(rng, i)) for i in range(ctx.n(300, 6000))]
+    tasks += [('inst', gen_inst_case(rng, i)) for i in range(ctx.n(160, 12000))]
+    tasks += [('cost', gen_cost_case(rng, i, deep=not ctx.quick())) for i in range(ctx.n(300, 30000))]
     t1 = time.time()
     consume(ctx, run_tasks(ctx, tasks))
     ctx.cov['timing_s'] = dict(build_and_import=round(t1 - ctx.t0, 1), cases=round(time.time() - t1, 1))
